@@ -6,3 +6,5 @@ open LhasaV.Props.C13
 #print axioms read_bounds
 #print axioms skip_bounds
 #print axioms stream_no_fault
+#print axioms next_work_linear
+#print axioms heap_bounded
